@@ -255,7 +255,19 @@ func (h *handler) startSending(ctx context.Context) {
 		case msg := <-h.sendChan:
 			if _, err := h.sender(msg); err != nil {
 				h.disconnect(errors.New("sending message failed").Wrap(err))
-				return
+
+				// Keep discarding until the connection is torn down: the main
+				// loop and the broadcasters of the session must not block on
+				// the send queue of a connection that can no longer be
+				// written to.
+				for {
+					select {
+					case <-ctx.Done():
+						return
+
+					case <-h.sendChan:
+					}
+				}
 			}
 		}
 	}
